@@ -404,7 +404,7 @@ fn run_once(c: &PCase, wrap_some: bool, oracle: bool, st: &mut Stats, known: &Kn
     let requests: Vec<(u64, usize)> = with(|w| w.hal.log.iter().filter_map(|e| if let HalEv::PhysToVirt { paddr, size } = e { Some((*paddr, *size)) } else { None }).collect());
 
     // evaluate a candidate choice completely
-    let eval = |ch: &Choice| -> Result<(VpLayout, Vec<(u64, u64)>), String> {
+    let eval = |ch: &Choice, common_align: u64| -> Result<(VpLayout, Vec<(u64, u64)>), String> {
         if dtype.is_none() {
             return Err("not a virtio device id".into());
         }
@@ -422,7 +422,7 @@ fn run_once(c: &PCase, wrap_some: bool, oracle: bool, st: &mut Stats, known: &Kn
         }
         // alignment of the virtual addresses
         for (i, (p, _)) in wins.iter().enumerate() {
-            let al = [8u64, 2, 1, 4][i];
+            let al = [common_align, 2, 1, 4][i];
             if p.wrapping_add(c.mmio_offset) % al != 0 {
                 return Err(format!("window {} at virtual {:#x} not {}-aligned", i, p.wrapping_add(c.mmio_offset), al));
             }
@@ -433,8 +433,14 @@ fn run_once(c: &PCase, wrap_some: bool, oracle: bool, st: &mut Stats, known: &Kn
             wins,
         ))
     };
-    let ev_strict = eval(&strict);
-    let ev_lenient = eval(&lenient);
+    // "Suitably aligned for its use": a common-configuration window aligned to 8 suits every
+    // implementation and must be accepted; one aligned to 4 only suits an implementation that
+    // makes no 64-bit access to it (4.1.3.1 allows two 32-bit halves), so accepting it is allowed
+    // and every later 64-bit access through it is then a violation (checked per operation).
+    let ev_strict = eval(&strict, 8);
+    let ev_lenient = eval(&lenient, 8);
+    let ev_strict4 = eval(&strict, 4);
+    let ev_lenient4 = eval(&lenient, 4);
     let well_formed = ev_strict.is_ok() && strict == lenient && !b.exp.iter().any(|e| *e == Expect::Invalid);
 
     let t = match res {
@@ -450,7 +456,7 @@ fn run_once(c: &PCase, wrap_some: bool, oracle: bool, st: &mut Stats, known: &Kn
     st.class("construction_accepted");
     // which candidate did the transport follow?
     let req_p: Vec<u64> = requests.iter().map(|r| r.0).collect();
-    let pick = [&ev_strict, &ev_lenient].into_iter().find_map(|e| match e {
+    let pick = [&ev_strict, &ev_lenient, &ev_strict4, &ev_lenient4].into_iter().find_map(|e| match e {
         Ok((lay, wins)) if wins.iter().map(|w| w.0).collect::<Vec<_>>() == req_p => Some((lay.clone(), wins.clone())),
         _ => None,
     });
@@ -526,6 +532,9 @@ fn run_once(c: &PCase, wrap_some: bool, oracle: bool, st: &mut Stats, known: &Kn
             let tr = with(|w| w.bus.take_trace());
             if let Some(f) = world::first_fault() {
                 return Err(format!("op #{} {:?}: {}", i, op, f.msg));
+            }
+            if let Some(a) = tr.iter().find(|a| a.width == 8 && a.addr % 8 != 0) {
+                return Err(format!("op #{} {:?}: 64-bit access at {:#x}, which is not 8-byte aligned (the common-configuration window is at {:#x})", i, op, a.addr, common_virt));
             }
             let trc = rel(&tr, common_virt);
             if oracle {
@@ -651,8 +660,9 @@ fn check_op(
             }
         }
         POp::SetStatus(v) => {
-            let w: Vec<_> = tr.iter().map(|a| (a.0, a.1, a.3)).collect();
-            if w != vec![(true, 20, *v as u64)] {
+            // device_status is read/write: read-backs are the implementation's choice
+            let w: Vec<_> = tr.iter().filter(|a| a.0).map(|a| (a.1, a.3)).collect();
+            if w != vec![(20, *v as u64)] || tr.iter().any(|a| a.1 != 20) {
                 return Err(format!("set_status accesses {:x?}", tr));
             }
         }
@@ -662,11 +672,14 @@ fn check_op(
                 Some((true, 28, 2, 1)) => {}
                 other => return Err(format!("last access of queue_set must write queue_enable = 1, got {:x?}", other)),
             }
-            if tr.iter().filter(|x| x.1 == 28).count() != 1 {
-                return Err("queue_enable touched more than once".into());
+            if tr.iter().filter(|x| x.0 && x.1 == 28).count() != 1 {
+                return Err("queue_enable written more than once".into());
             }
+            // writes: the selector, the size, the three areas, the enable; reads of the selected
+            // queue's fields (size, MSI-X vector, enable, notify offset, areas) are harmless
             for x in tr {
-                if !x.0 || ![22u64, 24, 28, 32, 36, 40, 44, 48, 52].contains(&x.1) {
+                let ok = if x.0 { [22u64, 24, 28, 32, 36, 40, 44, 48, 52].contains(&x.1) } else { (24..56).contains(&x.1) };
+                if !ok {
                     return Err(format!("queue_set touched {:x?}", x));
                 }
             }
